@@ -21,11 +21,9 @@
   correspondence check); "regardless of order / padding" is inside the theorem.
 -/
 import Upnp.Lemmas.C07Fault
-import Upnp.Gen.C06Types
+import Upnp.Model.C06Anc
 namespace Upnp.C07
 open Upnp.C06 Upnp.Gen
-
-def genAnc (c : String) : List String := (C06Types.excAncestors.lookup c).getD []
 
 /-- `exceptions.py` has the hierarchy callers branch on: `UpnpActionResponseError` is both an
     action error and a response error, each class is a `UpnpError` … -/
@@ -200,6 +198,33 @@ theorem c07_model_ok (O : Oracles) (X : XmlOracle) (anc : String → List String
 theorem c07_model_ok_gen (O : Oracles) (X : XmlOracle) (a : ActionDecl) (status : Int) (body : Option Str) :
     ok O X a status body (observe genAnc (decode O X a status body)) = true :=
   c07_model_ok O X genAnc exc_hierarchy_pin a status body
+
+/-! ### histories -/
+
+/-- Successive calls on one long-lived action object.  In the model a call's outcome is `decode`
+    applied to that call's response — `decode` takes no state, so it is *trivially* a function of
+    the response alone; this definition only spells that out.  (That the implementation behaves the
+    same — no value of an earlier call leaks into a later one through the `Argument` objects — is what
+    the correspondence check compares call by call on generated histories.) -/
+def runHistory (O : Oracles) (X : XmlOracle) (anc : String → List String) (a : ActionDecl)
+    (calls : List (Int × Option Str)) : List OutObs :=
+  calls.map fun c => observe anc (decode O X a c.1 c.2)
+
+/-- every call of every history satisfies the judge on its own response, whatever came before -/
+theorem c07_history_ok (O : Oracles) (X : XmlOracle) (anc : String → List String) (H : AncOk anc)
+    (a : ActionDecl) (calls : List (Int × Option Str)) :
+    (calls.zip (runHistory O X anc a calls)).all (fun p => ok O X a p.1.1 p.1.2 p.2) = true := by
+  induction calls with
+  | nil => rfl
+  | cons c r ih =>
+    simp only [runHistory, List.map_cons, List.zip_cons_cons, List.all_cons, Bool.and_eq_true]
+    exact ⟨c07_model_ok O X anc H a c.1 c.2, ih⟩
+
+/-- the outcome of a call does not depend on the calls before it -/
+theorem history_independent (O : Oracles) (X : XmlOracle) (anc : String → List String) (a : ActionDecl)
+    (before : List (Int × Option Str)) (c : Int × Option Str) :
+    (runHistory O X anc a (before ++ [c])).getLast? = some (observe anc (decode O X a c.1 c.2)) := by
+  simp [runHistory]
 
 /-! ### non-vacuity -/
 
